@@ -417,6 +417,10 @@ def call_body(*args, _vh_spec=None, **kwargs):
                 class UserError(Exception):
                     pass
                 raise UserError("boom", spec["id"])
+            if kind == "base":
+                class StopWork(BaseException):      # not an Exception: like SystemExit / KeyboardInterrupt raised by the function
+                    pass
+                raise StopWork("boom", spec["id"])
             if kind == "json":
                 import json as _json
                 _json.loads("{")
@@ -576,7 +580,7 @@ def main():
                 try:
                     exe.shutdown(wait=cmd["wait"], cancel_futures=cmd["cancel"])
                     rec["raised"] = None
-                except Exception as e:  # noqa
+                except BaseException as e:  # noqa
                     rec["raised"] = type(e).__name__
                 with LOCK:
                     log("sd_end", raised=rec["raised"])
